@@ -62,3 +62,9 @@ func VerifHarness_C07_Auto_Skeleton() {
 	in := full[:n]
 	verifStreamReplays(rd.New(in), in)
 }
+
+// VerifHarness_C07_Auto_Large: inputs longer than the internal buffers (C19's large family).
+func VerifHarness_C07_Auto_Large() {
+	in := verifLargeInput()
+	verifStreamReplays(rd.New(in), in)
+}
